@@ -2,7 +2,7 @@
 """Warm the TLC caches used by the quick tier (spec-only artefacts)."""
 import os, sys
 sys.path.insert(0, os.path.dirname(os.path.abspath(__file__)))
-from vlib import run_tlc
+from vlib import run_tlc, run_tlc_stream
 
 JOBS = [
     ("symtab", "MCSymTab", "MCSymTab_refine.cfg", dict(coverage=True, cache_key="refine")),
@@ -29,3 +29,9 @@ for d, m, c, kw in JOBS:
     kw.setdefault('workers', 8)
     r = run_tlc(d, m, c, timeout=1500, **kw)
     print(d, m, c, "ok" if r.ok else "FAILED", "cached" if r.cached else f"{r.wall:.0f}s", file=sys.stderr)
+
+# streamed case files (grammar machine spec): all families, and the quick tier's seeded simulation
+for cfg, kw in [("MCGrammar_quick.cfg", dict(workers=8, timeout=3000, lib="events", cache_key="v1")),
+                ("MCGrammar_sim.cfg", dict(workers=1, timeout=3000, lib="events", cache_key="sim", simulate=300, depth=14, seed=1))]:
+    r, gz, n = run_tlc_stream("pgrammar", "MCGrammar", cfg, "CASE", **kw)
+    print("pgrammar MCGrammar", cfg, "ok" if r.ok else "FAILED", "cached" if r.cached else f"{r.wall:.0f}s", n, "cases", file=sys.stderr)
